@@ -113,6 +113,11 @@ type Model struct {
 	// can have executed (its reply instant); commands that read the clock accept
 	// any instant in [now, NowHi].
 	NowHi time.Time
+	// Alt holds the other hypotheses that still explain every reply so far.
+	Alt []*Model
+	// Overflow: more than 64 hypotheses were alive at some point and the excess
+	// was dropped; a later mismatch is then inconclusive.
+	Overflow bool
 }
 
 type Options struct {
@@ -130,7 +135,10 @@ func New(ndb int) *Model {
 }
 
 func (m *Model) Clone() *Model {
-	c := &Model{Selected: map[int]int{}, Opt: m.Opt, NowHi: m.NowHi}
+	c := &Model{Selected: map[int]int{}, Opt: m.Opt, NowHi: m.NowHi, Overflow: m.Overflow}
+	for _, a := range m.Alt {
+		c.Alt = append(c.Alt, a.snapshot())
+	}
 	for _, d := range m.DBs {
 		c.DBs = append(c.DBs, d.clone())
 	}
@@ -408,8 +416,15 @@ func reg(name string, h handler) { table[name] = h }
 func Known(name string) bool { _, ok := table[strings.ToLower(name)]; return ok }
 
 // Apply runs one command against the model and judges the observed reply.
-// Keys inside their one-second expiry window are tried alive first, then gone
-// (monotone: once a reply was only explicable by "gone", the key is gone).
+//
+// A key inside its one-second expiry window may or may not have gone yet, and
+// the reply does not always tell which.  The model therefore keeps every
+// hypothesis (a set of alternative states, Alt) that explains all replies so
+// far: a command is applied to each hypothesis under each "these keys have
+// gone" choice for the ambiguous keys it touches; hypotheses contradicted by
+// the reply die.  No surviving hypothesis = mismatch.  This is exactly the
+// window oracle of DESIGN C06: visible before the window, gone after it, and
+// monotone inside it (a hypothesis in which the key has gone never gets it back).
 func (m *Model) Apply(conn int, args [][]byte, now time.Time, got rd.Value) (bool, string) {
 	if len(args) == 0 {
 		return true, ""
@@ -422,48 +437,116 @@ func (m *Model) Apply(conn int, args [][]byte, now time.Time, got rd.Value) (boo
 		}
 		return false, "unknown command must be answered with an error, got " + describe(got)
 	}
-	amb := m.touchedAmbiguous(conn, args, now)
-	// hypotheses: all alive; then each subset gone (bounded)
-	nh := 1 << len(amb)
-	if len(amb) > 3 {
-		nh = 8
-	}
+	hyps := append([]*Model{m.snapshot()}, m.Alt...)
+	var next []*Model
+	seen := map[string]bool{}
 	firstWhy := ""
-	for hmask := 0; hmask < nh; hmask++ {
-		dead := map[string]bool{}
-		for i, k := range amb {
-			if hmask&(1<<i) != 0 {
-				dead[k] = true
-			}
+	for _, hyp := range hyps {
+		amb := hyp.touchedAmbiguous(conn, args, now)
+		nh := 1 << len(amb)
+		if len(amb) > 3 {
+			nh = 8
 		}
-		c := m.Clone()
-		d := c.db(conn)
-		d.purge(now, dead)
-		r := h(c, d, conn, args, now)
-		ok, why := r.Check(got)
-		if !ok && r.Desc == "WRONGTYPE error" && got.Kind == rd.Error {
-			// The reference checks some arguments before it looks at the key.
-			// When the command is also wrong for an argument-level reason (it
-			// errors even with the key absent) either error is acceptable.
-			c2 := m.Clone()
-			d2 := c2.db(conn)
-			d2.purge(now, dead)
-			for _, a := range args[1:] {
-				delete(d2.Keys, string(a))
+		for hmask := 0; hmask < nh; hmask++ {
+			dead := map[string]bool{}
+			for i, k := range amb {
+				if hmask&(1<<i) != 0 {
+					dead[k] = true
+				}
 			}
-			if r2 := h(c2, d2, conn, args, now); strings.HasPrefix(r2.Desc, "error") {
-				ok = true
+			c := hyp.snapshot()
+			c.NowHi = m.NowHi
+			d := c.db(conn)
+			d.purge(now, dead)
+			r := h(c, d, conn, args, now)
+			ok, why := r.Check(got)
+			if !ok && r.Desc == "WRONGTYPE error" && got.Kind == rd.Error {
+				// The reference checks some arguments before it looks at the key.
+				// When the command is also wrong for an argument-level reason (it
+				// errors even with the key absent) either error is acceptable.
+				c2 := hyp.snapshot()
+				d2 := c2.db(conn)
+				d2.purge(now, dead)
+				for _, a := range args[1:] {
+					delete(d2.Keys, string(a))
+				}
+				if r2 := h(c2, d2, conn, args, now); strings.HasPrefix(r2.Desc, "error") {
+					ok = true
+				}
 			}
-		}
-		if ok {
-			*m = *c
-			return true, ""
-		}
-		if firstWhy == "" {
-			firstWhy = why
+			if !ok {
+				if firstWhy == "" {
+					firstWhy = why
+				}
+				continue
+			}
+			sig := c.stateKey()
+			if !seen[sig] {
+				seen[sig] = true
+				next = append(next, c)
+			}
 		}
 	}
-	return false, firstWhy
+	if len(next) == 0 {
+		return false, firstWhy
+	}
+	if len(next) > 64 {
+		next = next[:64]
+		m.Overflow = true
+	}
+	m.adopt(next[0])
+	m.Alt = next[1:]
+	return true, ""
+}
+
+// snapshot copies the primary state only (no alternatives).
+func (m *Model) snapshot() *Model {
+	c := &Model{Selected: map[int]int{}, Opt: m.Opt, NowHi: m.NowHi}
+	for _, d := range m.DBs {
+		c.DBs = append(c.DBs, d.clone())
+	}
+	for k, v := range m.Selected {
+		c.Selected[k] = v
+	}
+	return c
+}
+
+func (m *Model) adopt(c *Model) {
+	m.DBs, m.Selected = c.DBs, c.Selected
+}
+
+// stateKey identifies a hypothesis: contents plus deadlines.
+func (m *Model) stateKey() string {
+	var sb strings.Builder
+	for i, d := range m.DBs {
+		keys := make([]string, 0, len(d.Keys))
+		for k := range d.Keys {
+			keys = append(keys, k)
+		}
+		sort.Strings(keys)
+		fmt.Fprintf(&sb, "db%d:", i)
+		for _, k := range keys {
+			e := d.Keys[k]
+			sb.WriteString(strconv.Quote(k))
+			sb.WriteString(e.dump())
+			if e.HasTTL {
+				fmt.Fprintf(&sb, "@%d", e.Exact.UnixNano())
+			}
+			if e.T == TStream {
+				fmt.Fprintf(&sb, "^%d-%d", e.XLastMS, e.XLastSeq)
+			}
+			sb.WriteByte(';')
+		}
+	}
+	sel := make([]int, 0, len(m.Selected))
+	for c := range m.Selected {
+		sel = append(sel, c)
+	}
+	sort.Ints(sel)
+	for _, c := range sel {
+		fmt.Fprintf(&sb, "s%d=%d", c, m.Selected[c])
+	}
+	return sb.String()
 }
 
 // Expected describes what the model would expect (alive hypothesis) without
